@@ -344,6 +344,14 @@ def random_ops(seed, length=40):
             ops.append(["put", rng.choice(names), rng.choice(favoured) if rng.random() < 0.7 else rng.choice(bodies)])
         elif r < 0.28:
             ops.append(["delete", rng.choice(names)])
+        elif r < 0.32:
+            # delete a member and upload the very same bytes again (same name or another one)
+            prev = [o for o in ops if o[0] == "put"]
+            if prev:
+                _, n0, b0 = rng.choice(prev)
+                ops.append(["put", n0, b0])
+                ops.append(["delete", n0])
+                ops.append(["put", n0, b0])
         else:
             # repeat a few focus filters often so that thresholds are crossed and the
             # index is reset and extended; sometimes another filter
